@@ -63,6 +63,11 @@ META = {
   design_ref="DESIGN.md section 3, C15",
   note="Evaluator level in this commit; the end-to-end part (index present/absent/being built through tier1/tier2) comes with the end-to-end world.",
   technique="rapid random generation, differential (bitmap vs per-block evaluator) + native go fuzzing"),
+ "C16": dict(
+  text="Fault-injection random testing end to end: the real work.RemoteWorker talks to the exported Tier2Service.ProcessRange through a fake gRPC client/stream pair; generated fault plans (1..3 transient faults by call number: error before the call, 'service currently overloaded', stream dropped mid-way with the server context cancelled, stream dropped after the job wrote its files) must leave the outputs identical to the sequential execution; a generated deterministic module failure at block k must end the request with an error that tier1 maps to invalid_argument, with only correct blocks < k delivered, nothing after the error and no endless retry.",
+  design_ref="DESIGN.md section 3, C16",
+  note="Every retry sleeps >= 1 s in derr's real back-off, so cases run in concurrent batches of 12 and counts are modest. Only faults an in-process fake stream can model (no half-open connections or deadlines).",
+  technique="rapid random generation of fault plans (fault injection), differential against the sequential reference"),
  "C17": dict(
   text="Structure-aware random generation of tier1 and tier2 requests with every field of every module free, plus valid generated graphs with one field broken, run through the server's sequence (ValidateTier1/2Request, exec.NewOutputModuleGraph incl. hashing and staging, BuildRequestDetails, BuildTier1RequestPlan): every call must return without panic, within 10 s, allocating < 256 MiB.",
   design_ref="DESIGN.md section 3, C17",
